@@ -127,3 +127,32 @@ func init() {
 		ruleWriteGated(c, r)
 	})
 }
+
+func init() {
+	register("C13", func(c *Ctx, r *Report) {
+		r.Decides("phase order delete ≺ replace ≺ update with the prefix and the matching request field; per-replace delete-then-write in one iteration; slices iterated in message order with the prefix joined; no notification or path skipped outside the best-effort error branch; the atomic prefix-delete exactly under n.Atomic.",
+			"equivalence with a path→value reference model for all request sequences.")
+		ruleSetOrder(c, r)
+	})
+	register("C14", func(c *Ctx, r *Report) {
+		r.Decides("pruneBranchesInternal's result flag is monotone; every Set writes a zero value into an empty struct-pointer/ordered-map field; ordered maps are recognised before struct pointers are dereferenced (no reflection into unexported fields); non-pointer leaves are compared with their type's zero value.",
+			"idempotence; BuildEmptyTree∘Prune identity at value level.")
+		rulePrune(c, r)
+	})
+	register("C18", func(c *Ctx, r *Report) {
+		r.Decides("float→integer conversions are preceded by a sound integrality+range test on the float; integer TypedValues only reach leaves through the range-checking parser; every parse error is tested and returned; kind tests precede the per-kind dispatch in both decoders; no sign-changing conversions.",
+			"range correctness for every width at value level; re-render fidelity.")
+		ruleFloat2Int(c, r)
+		ruleDecodeDiscipline(c, r)
+		ruleTablesJSON(c, r)
+		ruleSignConv(c, r, c.anchored("C18"), 1)
+	})
+	register("C19", func(c *Ctx, r *Report) {
+		r.Decides("float formatting uses 'f', -1, 64; wide integers/decimals are stringified exactly for the kinds the decoder expects; Binary→base64, empty→[null], enums→names under RFC7951; module prefix cleared exactly on module equality starting from the parent's module and recursive calls forward the module they were given; no sign-changing conversion in the renderer.",
+			"the actual bytes emitted for every value.")
+		ruleFloatFmt(c, r, c.anchored("C19"))
+		ruleRFC7951Encodings(c, r)
+		ruleTablesJSON(c, r)
+		ruleSignConv(c, r, c.anchored("C19"), 0)
+	})
+}
